@@ -66,11 +66,58 @@ func c05Rules(p *core.Prog, r *core.Run) {
 					if fa, ok := in.Addr.(*ssa.FieldAddr); ok && isCHField(fieldVar(fa)) {
 						nStores++
 						allowed := root == m.parseCH || root == m.parseExt || (root == m.process && isInnerObj(x.Args[0]))
+						// the fields that go back on the wire hold what was read: the
+						// parser fills them through the cursor, or with a value a read produced
+						switch fieldVar(fa) {
+						case m.fCH["LegacyVersion"], m.fCH["Random"], m.fCH["LegacySessionID"], m.fCH["CipherSuite"], m.fCH["LegacyCompressionMethods"]:
+							v := p.X(in.Val)
+							var asReadE func(a *core.Expr, depth int) bool
+							asReadE = func(a *core.Expr, depth int) bool {
+								if depth > 6 {
+									return false
+								}
+								switch {
+								case a.Op == "conv" || a.Op == "slice":
+									return asReadE(a.Args[0], depth+1)
+								case a.Op == "call" && (a.Name == "slices.Clone" || a.Name == "bytes.Clone") && len(a.Args) == 1:
+									return asReadE(a.Args[0], depth+1)
+								case a.Op == "out" && strings.Contains(a.Name, "cryptobyte.String).Read"):
+									return true
+								case a.Op == "phi" || a.Op == "cell":
+									n := 0
+									for _, x := range a.Args {
+										if x.Op == "const" && x.Name == "zero" {
+											continue // the variable before the read filled it
+										}
+										if !asReadE(x, depth+1) {
+											return false
+										}
+										n++
+									}
+									return n > 0
+								}
+								return false
+							}
+							asRead := asReadE(v, 0)
+							if (root == m.parseCH || root == m.parseExt) && !asRead {
+								nOther++
+								r.Check("C05.P2", fmt.Sprintf("wire-field:%s@%s", x.Name, p.FuncName(root)), false, p.InstrPos(in), "%s, which is written back to the wire (and is part of what the ECH payload is bound to), receives %s instead of what was read", x.Name, short(v))
+							}
+						}
 						if !allowed {
 							nOther++
 							r.Check("C05.P2", fmt.Sprintf("store:%s@%s", x.Name, p.FuncName(root)), false, p.InstrPos(in), "field %s of a clientHello is written outside the parser", x.Name)
 						}
 						continue
+					}
+					// the parser does not write into the bytes it parses (the pieces it
+					// keeps - extension data, names - alias them, and they go back on the wire)
+					if x.Op == "index" && (root == m.parseCH || root == m.parseExt) &&
+						x.Args[0].Any(func(e *core.Expr) bool {
+							return e.Op == "out" && strings.Contains(e.Name, "cryptobyte.String).Read") || e.Op == "param" && e.Val == ssa.Value(m.parseCH.Params[0])
+						}) {
+						nOther++
+						r.Check("C05.P2", fmt.Sprintf("parsed-bytes-store@%s", p.FuncName(root)), false, p.InstrPos(in), "the parser overwrites bytes of the message it parses: %s", short(x.Args[0]))
 					}
 					// element store into one of a hello's slices
 					if x.Op == "index" && x.Args[0].Any(func(e *core.Expr) bool { return e.Op == "field" && isCHFieldObj(m, e) }) &&
@@ -80,7 +127,7 @@ func c05Rules(p *core.Prog, r *core.Run) {
 					}
 				case *ssa.Call:
 					name := p.X(in).Name
-					if matches(`sort\.(Slice|SliceStable|Sort|Stable)|slices\.(Sort.*|Reverse|DeleteFunc|Delete|Compact.*|Insert|Replace)|copy`, name) {
+					if matches(`sort\.(Slice|SliceStable|Sort|Stable)|slices\.(Sort.*|Reverse|DeleteFunc|Delete|Compact.*|Insert|Replace)|copy|clear`, name) {
 						for _, a := range p.X(in).Args[:1] {
 							if a.Any(func(e *core.Expr) bool { return e.Op == "field" && isCHFieldObj(m, e) }) {
 								nOther++
